@@ -1,6 +1,5 @@
 (* Proofs about Model/DirStats.v (C03) and the 2D->1D bulk clause of C02. *)
 From Coq Require Import Reals Lra Lia List Arith Sorting.Sorted.
-From Interval Require Import Tactic.
 From OSU.Lib Require Import Cyclic Fmod Atan2.
 From OSU.Model Require Import Directional DirStats.
 From OSU.Proofs Require Import Directional.
@@ -97,8 +96,40 @@ Proof.
   - apply Rmult_le_compat_r; lra.
 Qed.
 
+(* sqrt 2 * 180 / PI = 81.0285...: PI from Machin's formula and the alternating series of atan *)
+Lemma atan_series_bounds : forall x N, 0 < x < 1 ->
+  sum_f_R0 (tg_alt (Ratan_seq x)) (S (2 * N)) <= atan x <= sum_f_R0 (tg_alt (Ratan_seq x)) (2 * N).
+Proof.
+  intros x N Hx. rewrite atan_eq_ps_atan by exact Hx. unfold ps_atan.
+  destruct (Ratan.in_int x) as [h|h]; [| exfalso; apply h; lra].
+  destruct (ps_atan_exists_1 x h) as [v Hv].
+  apply alternated_series_ineq; [apply Ratan_seq_decreasing; lra | apply Ratan_seq_converging; lra | exact Hv].
+Qed.
+
+Lemma PI_lower : 3.14159 < PI.
+Proof.
+  assert (H5 : 0 < / 5 < 1) by lra.
+  assert (H239 : 0 < / 239 < 1) by lra.
+  destruct (atan_series_bounds (/ 5) 1 H5) as [L5 _].
+  destruct (atan_series_bounds (/ 239) 0 H239) as [_ U239].
+  assert (M := Machin_4_5_239).
+  unfold sum_f_R0, tg_alt, Ratan_seq in L5, U239. simpl in L5, U239.
+  lra.
+Qed.
+
+Lemma sqrt2_upper : sqrt 2 < 1.4142136.
+Proof.
+  rewrite <- (sqrt_square 1.4142136) by lra.
+  apply sqrt_lt_1; lra.
+Qed.
+
 Lemma spread_bound_value : sqrt 2 * 180 / PI < 81.03.
-Proof. interval. Qed.
+Proof.
+  assert (P := PI_lower). assert (S := sqrt2_upper).
+  apply (Rmult_lt_reg_r PI); [lra|].
+  replace (sqrt 2 * 180 / PI * PI) with (sqrt 2 * 180) by (field; lra).
+  lra.
+Qed.
 
 (* ================================================================== *)
 (* trigonometry in degrees                                              *)
@@ -946,3 +977,9 @@ Proof.
   - apply (mean_moments_in_disc fmin fmax (f2 s) (map Some (e_2d s)) (a1_2d s) (b1_2d s)); assumption.
   - apply (mean_spread_range fmin fmax (f2 s) (map Some (e_2d s)) (a1_2d s) (b1_2d s) A B); assumption.
 Qed.
+
+(* combined form used by Properties/C03.v *)
+Lemma atan2_polar : forall x y, x <> 0 \/ y <> 0 ->
+  x = sqrt (x * x + y * y) * cos (atan2 y x) /\ y = sqrt (x * x + y * y) * sin (atan2 y x) /\
+  - PI < atan2 y x <= PI.
+Proof. intros x y H. destruct (atan2_cos_sin x y H) as [A B]. exact (conj A (conj B (atan2_range x y H))). Qed.
